@@ -8,7 +8,7 @@ unlinked module sections were replaced by a bare SEND, i.e. loaded projects with
 arbitrary patterns of empty positions).  Reference model: per project a list of slots
 with the rule "lowest empty position, else append", plus an owner map.
 """
-from .. import builder, chunkio, env, seeds, simio  # noqa: F401
+from .. import builder, chunkio, env, seeds, simio, noise  # noqa: F401
 from ..runner import Acc
 from ..simio import Ctx, HarnessTimeout, active
 
@@ -226,6 +226,9 @@ def execute(case):
     fired_reflag = [0]
     for i, op in enumerate(case["ops"]):
         k = op["k"]
+        if k == "bgload":
+            noise.run(op)
+            continue
         if k == "setup":
             w = W(2 + op.get("n", 0) % 2, op.get("files", ()))
             if any(None in s_ for s_ in w.slots):
@@ -616,6 +619,7 @@ def generate(seed, i, tier="quick"):
     if r.random() < 0.03:
         # swarm: sizes - a few runs grow one project past 256 positions
         ops.insert(r.randint(1, len(ops)), {"k": "bulk_new", "p": r.randrange(3), "n": r.choice([250, 257, 300]), "t": r.randrange(1000)})
+    noise.sprinkle(r, ops)
     return {"property": PROPERTY, "world": "owner", "ops": ops}
 
 
